@@ -119,7 +119,8 @@ class C12(Property):
             'from the stream, one-byte chunkings; adversarial: delimiter straddling a chunk edge, size met exactly '
             'at an edge, maxsize at offset+len(delimiter)+-1, timeout just before completion. tx: partial-send / '
             'timeout scripts x send/sendall/buffer/flush. ns: write_ns payloads over partial sends, wire re-cut, '
-            'read_ns. Non-trivial = the stream reaches the code in >= 2 pieces or with a timeout (rx/nsr/ns), or a '
+            'read_ns (maxsize via constructor / setmaxsize / argument); nsr: read_ns over valid frames with point '
+            'mutations. Non-trivial = the stream reaches the code in >= 2 pieces or with a timeout (rx/nsr/ns), or a '
             'send is partial / times out (tx), and at least one call returns a non-empty value.')
     ASSUMPTIONS = [
         'the wrapped socket returns b"" from recv only at end of stream, never more than the requested bytes, and '
@@ -373,7 +374,7 @@ class C12(Property):
         if kind < 0.5:
             ops = [['u', rng.randint(0, 1), mx, hx(d)], ['u', rng.randint(0, 1), mx, hx(d)], ['c', 'N']]
         elif kind < 0.7:
-            ops = [['s', rng.choice([prev, end, first, len(stream), len(stream) + 1]) if True else 0],
+            ops = [['s', rng.choice([prev, end, first, len(stream), len(stream) + 1])],
                    ['u', 0, mx, hx(d)], ['p', rng.randint(0, 3)], ['c', mx]]
         elif kind < 0.85:
             ops = [['p', rng.choice([end, first + 1, len(stream), len(stream) + 1])],
